@@ -230,8 +230,10 @@ type World struct {
 	SimEnd   time.Duration
 	LiveAtEnd []simrt.GInfo
 	TearingDown bool
+	Closing  bool
 	TS       *tState
 	CS       *cState
+	CL       *closeState
 	Puppets  []*puppetConn
 	PuppetFlags map[uint64]uint32
 	PuppetLis *Listener
@@ -353,7 +355,9 @@ func (w *World) startServer(i int) {
 	})
 	// wait until the listener exists
 	for n := 0; ; n++ {
-		if l := w.Net.listeners[addrOf(i)]; l != nil && !l.closed {
+		// ready = the server is blocked in Accept (it has then registered its listener, so a
+		// later Server.Close can reach it)
+		if l := w.Net.listeners[addrOf(i)]; l != nil && !l.closed && l.aq.Len() > 0 {
 			break
 		}
 		if gen.returned || n > 10000 {
